@@ -60,6 +60,15 @@ def run(ctx, progs):
                  ("FULL1", "push_back: None under size < N; Some (the displaced element) only under size >= N or N == 0"),
                  ("NONE1", "pop_front / pop_back (the owning iterator): None only over edges establishing N == 0 / size == 0")):
         ctx.rule(r, t)
+    if "default" in progs and "unstable" in progs:
+        # the conversions under the `unstable` feature: everything above is decided on each configuration's own MIR; that the nightly arms of the helpers
+        # are the reviewed substitution of a std API for the hand-written code (same operands, same end of the slice) is C18's
+        # DELEG1, evaluated here too because the statement quantifies over configurations
+        from . import c18 as _c18
+
+        ctx.rule("DELEG1", "each unstable arm is the reviewed substitution with pass-through operands")
+        _c18.deleg1(ctx, progs["default"], progs["unstable"], "default|unstable", _c18.cfgdiff2(ctx, progs["default"], progs["unstable"], "default|unstable") if False else ())
+
     for cfg, prog in progs.items():
         c04.ctor1(ctx, prog, cfg)
         shapes.must_match(ctx, "CTOR1", prog, "<CircularBuffer<N, T> as Default>::default", [r"?call CircularBuffer::new\(\)", r"return " + NEWV], cfg,
